@@ -77,7 +77,7 @@ def shapes(tier, seed):
     if tier == "quick":
         out += S.trees(["a", "b", "c"]) + rnd.sample(three, 14) + rnd.sample(four, 16)
     else:
-        out += three + rnd.sample(four, 300)
+        out += three + rnd.sample(four, 150)
     seen, uniq = set(), []
     for t in out:
         if repr(t) not in seen:
